@@ -2,7 +2,7 @@
 import hsuite, hist, oracles, vlib
 from props.c03 import TRUSTED, ASSUMPTIONS
 COQCHK = False
-PROFILE = dict(quick=450, thorough=3000, lengths=[10, 18, 28], finale=['drain', 'settle', 'sweep'],
+PROFILE = dict(quick=450, thorough=30000, lengths=[10, 18, 28], finale=['drain', 'settle', 'sweep'],
                weights=dict(send=14, poll=14, post=14, frame=16, upgrade=6, open_ws=4, disc=4, disc_all=1, adv=12, bad=6, api=3, wsclose=4, open_rej=3), p_async=0.3, monitor=True)
 RULE = ('seeded histories over the union of the stimuli used for C03-C07 and C12, each replayed step by step against the threaded server, the asyncio server and the model under '
         'deterministic scheduling and one virtual clock; the two implementations are compared on: events per session (kind, payload, order; the disconnect reason unless the end was '
